@@ -29,6 +29,8 @@ type half struct {
 	closed bool
 	err    error
 	total  int
+	seg    []int // a Read returns at most seg[i] bytes, i counting the Reads (nil: whatever is there)
+	segi   int
 }
 
 func newHalf() *half { h := &half{}; h.cond = sync.NewCond(&h.mu); return h }
@@ -57,6 +59,14 @@ func (h *half) Read(p []byte) (int, error) {
 			return 0, h.err
 		}
 		return 0, io.EOF
+	}
+	// a carrier hands stream data over in pieces of its own choosing (QUIC: STREAM frame by STREAM frame): with a plan, a Read
+	// returns at most the next planned number of bytes, so that frame headers get cut at every position sooner or later
+	if len(h.seg) > 0 {
+		if m := h.seg[h.segi%len(h.seg)]; m < len(p) {
+			p = p[:m]
+		}
+		h.segi++
 	}
 	n := copy(p, h.buf)
 	h.buf = h.buf[n:]
@@ -185,6 +195,7 @@ type fakeH3 struct {
 }
 
 var tracingSeq uint64
+var wtConnSeq int // (WebTransport connections of the process, all bubbles: every other one gets the segmenting carrier)
 
 func newFakeH3() *fakeH3 {
 	tracingSeq++
@@ -224,6 +235,12 @@ func (h *fakeH3) newRequest(rawURL string, hdr http.Header, openStream bool) *wt
 	h.mu.Unlock()
 	reqStr := &fakeStream{id: reqID, r: newHalf(), w: newHalf(), ctx: h.conn.ctx}
 	c2s, s2c := newHalf(), newHalf()
+	// what the client writes reaches the server in pieces: every other WebTransport connection of a process gets a carrier that
+	// cuts the stream into small, uneven segments (frame headers are cut at every position sooner or later)
+	wtConnSeq++
+	if wtConnSeq%2 == 0 {
+		c2s.seg = []int{1, 1, 2, 1, 3, 2, 5, 1, 64, 1, 1, 1000, 2, 1, 7}
+	}
 	u, _ := url.Parse(rawURL)
 	if hdr == nil {
 		hdr = http.Header{}
